@@ -30,7 +30,13 @@ TRUSTED = ["modelled, not verified: virttest.utils_params.Params.object_params o
            "node identity (`node == self.left`) is an explicit id; IPv4 strings in connects_nodes are well-formed "
            "dotted quads (malformed addresses are outside the model)",
            "the driver is run by the Lean interpreter (`lake env lean --run Driver/Tunnel.lean`) unless a compiled "
-           "drv_tunnel exists"]
+           "drv_tunnel exists",
+           "harness/pygen.py (Python AST -> Lean `do` block, fails closed) regenerates I2N/Extracted/GenTunnel.lean from "
+           "the source of VMTunnel._get_peer_variant on every run; peerVariant_matches_source proves the hand written "
+           "peerVariant equal to it for all dictionaries.  Trusted: that the printed `do` block means what the Python "
+           "means on the translated subset (dict literals, d[\"k\"] reads raising KeyError, d[\"k\"] = e on local "
+           "dictionaries, if/elif/else, ==, return of a tuple; Lean hoists the reads to the front of a statement in "
+           "Python's left-to-right order; aliasing of dictionaries and reads in short-circuited positions are refused)"]
 
 LOCALS = ["nic", "internetip", "custom"]
 REMOTES = ["custom", "externalip", "modeconfig"]
@@ -90,6 +96,19 @@ def exc_name(e):
         if type(e).__name__ == n or any(b.__name__ == n for b in type(e).__mro__):
             return n
     raise e
+
+
+# ---------------------------------------------------------------------------------------------------------
+# regenerated model: the source of _get_peer_variant translated to Lean (second tie, see harness/pygen.py)
+
+def extract(ctx):
+    """lean/I2N/Extracted/GenTunnel.lean from /repo's AST.  Raises (pygen.Unsupported) when the function left the
+    translated subset: run.py records that as a proof problem, the theorems then stand for an earlier tree only."""
+    import pygen
+    if pygen.extract_tunnel(ctx):
+        ctx.notes.append("I2N/Extracted/GenTunnel.lean changed: the source of VMTunnel._get_peer_variant differs from "
+                         "the one the committed file was generated from (peerVariant_matches_source is re-checked)")
+    ctx.extra["regenerated"] = "lean/I2N/Extracted/GenTunnel.lean (VMTunnel._get_peer_variant via harness/pygen.py)"
 
 
 # ---------------------------------------------------------------------------------------------------------
